@@ -160,6 +160,7 @@ def run(ctx):
     ctx.floor('C13.2', 'fs / process sinks examined', nsinks, 40)
     ctx.ob('C13.2', 'workspace', 'sinks-examined', True, '%d sink operands in tool / workspace / task / checkpoint code examined, taint fixpoint in %d rounds' % (nsinks, T.rounds))
 
+    c134(ctx)
     # ---------------------------------------------------------------- C13.3
     handlers = {'rip_tools::builtins::read::run_read': 'path', 'rip_tools::builtins::write::run_write': 'path', 'rip_tools::builtins::ls::run_ls': 'path',
                 'rip_tools::builtins::grep::run_grep': 'path'}
@@ -175,3 +176,42 @@ def run(ctx):
         # `ls` / `grep` may default to the root when no path is given: effects not dominated by a resolver must not use tainted data (C13.2)
         bad = [s for s in bad if any(T.tainted(f, a) for a in s.args)]
         ctx.ob('C13.3', f, 'resolve-before-effect', not bad, 'every fs effect that uses the argument is dominated by resolve_path (%d effect sites)' % len(effs), line=res[0].line)
+
+
+def c134(ctx):
+    """checkpoint ids are path components (`.rip/checkpoints/<session>/<id>/`): a rewind may only
+    use an id that was found in the listing of that session's checkpoints."""
+    from .c01 import ok_edge_of_try
+    P = ctx.prog
+    ctx.rule('C13.4', 'checkpoint ids are path components: every call of Workspace::rewind_to_checkpoint outside rip_workspace is reachable only through the Ok edge of a lookup of that very id in Workspace::list_checkpoints (find(|e| e.id == id).ok_or(..)?), so an absolute or `..` id is refused before any path is built from it.')
+    sites = [s for s in P.callers(r'^rip_workspace::Workspace::rewind_to_checkpoint$') if s.fn.crate != 'rip_workspace']
+    ctx.floor('C13.4', 'rewind_to_checkpoint callers', len(sites), 1)
+    for s in sites:
+        f = s.fn
+        ctx.touch(f)
+        idl = f.root_local(s.args[2], through_calls=(r'::deref$', r'::as_str$', r'::as_ref$'))
+        ok = False
+        why = 'no lookup of the id in list_checkpoints precedes the rewind'
+        for t in f.calls(r'Try>::branch$'):
+            src = sources(f, t.args[0])
+            if not any(x[0] == 'call' and x[1].endswith('Workspace::list_checkpoints') for x in src):
+                continue
+            # the lookup closure compares with the same id
+            finds = [c for c in f.calls(r'Iterator::find$|::find$|::position$|::any$') if c.dest['l'] in reads_locals(f, t.args[0]) or True]
+            uses_id = False
+            for c in finds:
+                if len(c.args) > 1:
+                    o = f.origin(c.args[1])
+                    if o[0] == 'rv' and o[1].get('ak') == 'closure':
+                        for cap in o[1]['a']:
+                            if f.root_local(cap, through_calls=(r'::deref$',)) == idl:
+                                uses_id = True
+            sw = f.switch_on_call(t)
+            if sw is None:
+                continue
+            okt = sw[1].get('0')
+            if okt is not None and f.edge_dom(sw[0], okt, s.bb) and uses_id:
+                ok = True
+            elif not uses_id:
+                why = 'the listing is searched, but not for the id that is rewound'
+        ctx.ob('C13.4', f, 'rewind-id-from-listing', ok, 'rewind_to_checkpoint(session, id) %s' % ('runs only after `id` was found in list_checkpoints(session)' if ok else 'runs with an UNCHECKED id (%s): the id is joined onto the checkpoint directory as a path segment' % why), line=s.line)
